@@ -450,15 +450,15 @@ Definition v2_check_stats (s : state) (app asset : Z) : outcome state :=
       end
   end.
 
-(* generation-2 CloseEnglishAuction, surplus initiator: the lot is taken from the collector AGAIN
-   and the net fees are INCREASED by it *)
+(* generation-2 CloseEnglishAuction, surplus initiator (since the fix of C13-F2): the lot is paid to the
+   bidder out of the generation-1 auction module account, where GetAmountFromCollector put it when the
+   auction was started, the bid is burnt - all outside the collector, whose coins and books do not move
+   (before the fix the lot was taken from the collector a SECOND time and the net fees re-credited) *)
 Definition v2_surplus_close (s : state) (app asset lot : Z) : outcome state :=
-  obind (lift s (csend (cs s) A_COLLECTOR A_EXT asset lot)) (fun s1 =>
-  obind (lift s1 (set_net_fee (cs s1) app asset lot)) (fun s2 =>
-  match amp (cs s2) (app, asset) with
+  match amp (cs s) (app, asset) with
   | None => Err 16
-  | Some f => lift s2 (set_auction_mapping (cs s2) app asset (with_active f false))
-  end)).
+  | Some f => lift s (set_auction_mapping (cs s) app asset (with_active f false))
+  end.
 
 (* generation-2 CloseEnglishAuction, debt initiator: DebtToken (denom / amount as on the auction
    record) goes to the collector, net fees of CollateralAssetId grow by DebtToken.Amount (since the
@@ -691,7 +691,7 @@ Definition nf_delta_spec (s : state) (o : op) (k : key) : Z :=
   | V2Penalty app ca da amt => at_key app da k amt
   | V1SurplusClose app asset lot bidder esm => if bidder && negb esm then 0 else at_key app asset k lot
   | V1DebtClose app asset amt bids esm => if esm then 0 else if bids then at_key app asset k amt else 0
-  | V2SurplusClose app asset lot => at_key app asset k lot
+  | V2SurplusClose app asset lot => 0
   | V2DebtClose app asset ca dd da => at_key app asset k da
   | V2TriggerEsm app da collected fee => at_key app da k (esm_xfer collected fee)
   | CDeposit u app d amt done => at_key app d k (amt - REFUND_TOTAL)
@@ -737,14 +737,13 @@ Definition holds_C13_flow (apps assets : list Z) (s : state) (o : op) (s' : stat
 (* ---- known-finding classes (DESIGN.md section 5) ---- *)
 (* C13-F1 (generation-2 penalty booked under the collateral asset while the coins are debt-denom)
    is repaired in /repo: its class kf_C13_1 is gone *)
-(* C13-F2: generation-2 surplus auction: start sends the lot to the generation-1 auction account,
-   close takes it from the collector again and re-credits the net fees *)
-Definition kf_C13_2 (o : op) : bool :=
-  match o with V2SurplusClose app asset lot => lot >? 0 | _ => false end.
+(* C13-F2 (generation-2 surplus auction: the start sent the lot to the generation-1 auction account, the
+   close took it from the collector again and re-credited the net fees) is repaired: its class kf_C13_2 is gone *)
 (* C13-F3 (generation-2 debt auction close booked CollateralToken.Amount, the minted secondary
    amount, while DebtToken is what arrives) is repaired: its class kf_C13_3 is gone *)
 
-Definition kf_C13_any (o : op) : bool := kf_C13_2 o.
+(* no known-finding class is left *)
+Definition kf_C13_any (o : op) : bool := false.
 
 (* ------------------------------------------------------------------------------------ *)
 (* Hypotheses of the property theorems (Properties/C13.v), executable.                   *)
@@ -822,7 +821,7 @@ Definition coin_delta_of (s s' : state) (o : op) : Z * Z :=     (* (denom, chang
   | V2Penalty app ca da amt => (da, amt)
   | V1SurplusClose app asset lot bidder esm => (asset, if bidder && negb esm then 0 else lot)
   | V1DebtClose app asset amt bids esm => (asset, if esm then 0 else if bids then amt else 0)
-  | V2SurplusClose app asset lot => (asset, - lot)
+  | V2SurplusClose app asset lot => (asset, 0)
   | V2DebtClose app asset ca dd da => (dd, da)
   | V2TriggerEsm app da collected fee => (da, esm_xfer collected fee)
   | CDeposit u app d amt done => (d, amt - REFUND_TOTAL)
